@@ -493,9 +493,15 @@ def make_atom(head: str, *args) -> Rat:
         return mk_abs(e)
     if head == 'Pow':
         return mk_pow(*args)
+    # rebuilding a reduction whose body is already bound (it mentions $b, the bound symbol): a free $i in it is an *outer* element index and must stay
+    # free (re-running the binder would capture it: `[sum(a[s[i]:e[i]]) for i ...]`)
     if head == 'Sum':
-        return mk_sum(*args)
+        return _rebuild_sum(*args) if _is_bound_body(args[0]) else mk_sum(*args)
     if head in REDUCERS:
+        if _is_bound_body(args[0]):
+            if head == 'Mean' and not args[1].is_zero():
+                return _rebuild_sum(args[0], args[1]) / args[1]
+            return A(head, *args)
         return mk_reduce(head, *args)
     if head == 'gamma' and isinstance(args[1], Rat) and args[1] == args[2]:
         return args[1]
@@ -630,6 +636,34 @@ def mk_sum(body: Rat, length: Rat) -> Rat:
             acc = acc + coeff * length
         else:
             acc = acc + coeff * A('Sum', bind(Rat(Poly({tuple(dep): Fraction(1)}))), length)
+    return acc / Rat(body.d)
+
+
+def bound_atom() -> int:
+    return ATOMS.intern('sym', ('$b',))
+
+
+def _is_bound_body(body) -> bool:
+    return isinstance(body, Rat) and bound_atom() in all_atoms(body)
+
+
+def _rebuild_sum(body: Rat, length: Rat) -> Rat:
+    """Sum over the bound symbol $b of an already bound body, expanded by linearity exactly as mk_sum does for a fresh one"""
+    b = bound_atom()
+
+    def dep(a) -> bool:
+        return a == b or b in atom_closure(a)
+    if any(dep(a) for a in body.d.atoms()):
+        return A('Sum', body, length)
+    acc = C(0)
+    for m, c in body.n.t.items():
+        free = [(a, e) for a, e in m if not dep(a)]
+        bound = [(a, e) for a, e in m if dep(a)]
+        coeff = Rat(Poly({tuple(free): c}))
+        if not bound:
+            acc = acc + coeff * length
+        else:
+            acc = acc + coeff * A('Sum', Rat(Poly({tuple(bound): Fraction(1)})), length)
     return acc / Rat(body.d)
 
 
